@@ -135,7 +135,9 @@ def render(items, r=None, level=0):
 # random item sequences over the whole grammar
 # ---------------------------------------------------------------------------------------------
 IDENTS = ['a', 'div', 'x-y', '_u', 'B2', 'é', '中', '-w', '--v', 'a.b', '1a', 'a b', '#h', 'a\\b', '\x7f', '\x80', '\x01', 'q:r']
-VALS = ['a', 'ab', 'a b', '', 'a"b', "a'b", 'a\\b', 'x\ny', '中', 'de-DE', '*-x', 'a,b', ')', 'A']
+VALS = ['a', 'ab', 'a b', '', 'a"b', "a'b", 'a\\b', 'x\ny', '中', 'de-DE', '*-x', 'a,b', ')', 'A',
+        # a quote of the delimiter's own kind at either end of the value (escaped in the spelling)
+        '"', "'", 'a"', '"a', "it's'", '""', 'say "hi"', "'x'", '"\\', '\\"']
 SIMPLE_PSEUDO = [':root', ':empty', ':first-child', ':last-child', ':only-child', ':first-of-type', ':last-of-type',
                  ':only-of-type', ':checked', ':default', ':disabled', ':enabled', ':indeterminate', ':optional',
                  ':required', ':read-only', ':read-write', ':in-range', ':out-of-range', ':placeholder-shown', ':link',
